@@ -392,6 +392,9 @@ func (n *PathSelectorNode) Field(fieldName string) (PathNode, bool, error) {
 }
 
 func (n *PathSelectorNode) Get(src, dst reflect.Value) error {
+	if !src.IsValid() {
+		return fmt.Errorf("failed to get a value from nil")
+	}
 	switch src.Type().Kind() {
 	case reflect.Map:
 		iter := src.MapRange()
@@ -468,6 +471,9 @@ func (n *PathIndexNode) Field(fieldName string) (PathNode, bool, error) {
 }
 
 func (n *PathIndexNode) Get(src, dst reflect.Value) error {
+	if !src.IsValid() {
+		return fmt.Errorf("failed to get a value from nil")
+	}
 	switch src.Type().Kind() {
 	case reflect.Array, reflect.Slice:
 		if src.Len() > n.selector {
@@ -511,6 +517,9 @@ func (n *PathIndexAllNode) Field(fieldName string) (PathNode, bool, error) {
 }
 
 func (n *PathIndexAllNode) Get(src, dst reflect.Value) error {
+	if !src.IsValid() {
+		return fmt.Errorf("failed to get a value from nil")
+	}
 	switch src.Type().Kind() {
 	case reflect.Array, reflect.Slice:
 		var arr []interface{}
@@ -587,6 +596,9 @@ func valueToSliceValue(v interface{}) []interface{} {
 }
 
 func (n *PathRecursiveNode) Get(src, dst reflect.Value) error {
+	if !src.IsValid() {
+		return fmt.Errorf("failed to get a value from nil")
+	}
 	if n.child == nil {
 		return fmt.Errorf("failed to get by recursive path ..%s", n.selector)
 	}
